@@ -141,6 +141,17 @@ func Build(g *gram.Grammar, opt Options) *Built {
 				ch = m
 			}
 			p = terminal.Rune(rune(ch))
+			if tok, ok := Tokens[e.Ch]; ok {
+				// the same terminal under a token name of the grammar writer's choosing (here: one that the library
+				// itself uses for the empty match / the end of input / a sequence): names are labels, not identities
+				r, q := rune(ch), parsley.NotFoundError(strconv.Quote(string(rune(ch))))
+				p = parser.Func(func(ctx *parsley.Context, _ data.IntMap, pos parsley.Pos) (parsley.Node, data.IntSet, parsley.Error) {
+					if np, ok := ctx.Reader().(*text.Reader).ReadRune(pos, r); ok {
+						return ast.NewTerminalNode(nil, tok, r, pos, np), data.EmptyIntSet, nil
+					}
+					return nil, data.EmptyIntSet, parsley.NewError(pos, q)
+				})
+			}
 		case gram.Eps:
 			p = parser.Empty()
 		case gram.End:
@@ -357,6 +368,13 @@ func (b *Built) Run(ctx *parsley.Context, p parsley.Parser, pos parsley.Pos) (o 
 //	   the only file of a fresh set (its base offset changes back to 1) and parsed through that set with the old reader
 var scratch []byte
 
+// FileName is the name NewContext gives the file under test.
+var FileName = "f"
+
+// Tokens, when set, gives the terminals of the grammars built from now on the given token names (keyed by the
+// grammar's terminal byte). Render shows rune-valued terminal nodes by their rune, whatever their token.
+var Tokens map[byte]string
+
 var (
 	Placement int
 	Base      = 1
@@ -367,7 +385,7 @@ var (
 func NewContext(w []byte) (*parsley.Context, *text.Reader, *text.File) {
 	// the file is created from a scratch buffer that is overwritten right away: it must hold its own copy of the input
 	scratch = append(scratch[:0], w...)
-	f := text.NewFile("f", scratch)
+	f := text.NewFile(FileName, scratch)
 	for i := range scratch {
 		scratch[i] = '#'
 	}
@@ -446,6 +464,11 @@ func render(sb *strings.Builder, n parsley.Node, base int) {
 		sb.WriteByte(')')
 		span(sb, n, base)
 	case *ast.TerminalNode:
+		if r, ok := v.Value().(rune); ok && Tokens != nil {
+			sb.WriteString(string(r))
+			span(sb, n, base)
+			break
+		}
 		sb.WriteString(v.Token())
 		if r, ok := v.Value().(rune); !ok || string(r) != v.Token() {
 			sb.WriteString(fmt.Sprintf("=%v", v.Value()))
